@@ -253,12 +253,12 @@ def gen_mask_cases(rng, exact, kinds):
 
 def gen_inputs(tier, rng):
     big = tier == "thorough"
-    n_geom = 600 if big else 44
+    n_geom = 400 if big else 44
     for i in range(n_geom):
         yield from gen_geometry_cases(rng, exact=(i % 3 != 2))
-    for i in range(300 if big else 24):
+    for i in range(200 if big else 24):
         yield from gen_geometry1_cases(rng, exact=(i % 3 != 2))
-    for i in range(1500 if big else 110):
+    for i in range(900 if big else 90):
         yield from gen_mask_cases(rng, exact=(i % 3 != 2), kinds=["circ", "ann", "anti", "ell", "ellann"])
 
 # ----------------------------------------------------------------------------- running one case
